@@ -111,6 +111,18 @@ Definition E_SIG    : N := 2.   (* "handshake signature invalid" / "error verify
 Definition E_KEY    : N := 3.   (* payload or identity key does not unmarshal *)
 Definition E_CRYPT  : N := 4.   (* hs.ReadMessage failed: short message, AEAD authentication *)
 Definition E_IO     : N := 5.   (* the connection ended before the next message *)
+Definition E_PANIC  : N := 8.   (* a panic inside runHandshake, recovered into "panic in Noise handshake" *)
+
+(* where a fault (panic) strikes inside runHandshake: the k-th Write / Read on
+   the insecure connection (one Write per handshake message sent, one Read per
+   message received), or the early-data handler's Send / Received *)
+Inductive fstage := FWrite (k : nat) | FRead (k : nat) | FSend | FReceived.
+Definition fstage_eqb (a b : fstage) : bool :=
+  match a, b with
+  | FWrite x, FWrite y | FRead x, FRead y => Nat.eqb x y
+  | FSend, FSend | FReceived, FReceived => true
+  | _, _ => false
+  end.
 
 Record party := mkParty {
   p_e : N;                  (* ephemeral X25519 scalar *)
@@ -118,8 +130,12 @@ Record party := mkParty {
   p_prologue : nt;
   p_check : bool;           (* secureSession.checkPeerID *)
   p_expect : option N;      (* secureSession.remoteID as passed in: None = "" *)
-  p_payload : nt            (* what generateHandshakePayload produced *)
+  p_payload : nt;           (* what generateHandshakePayload produced *)
+  p_fault : option fstage   (* the stage of runHandshake at which something panics, if any *)
 }.
+
+Definition faulty (p : party) (s : fstage) : bool :=
+  match p_fault p with Some x => fstage_eqb x s | None => false end.
 
 (* generateHandshakePayload for an endpoint holding identity key k *)
 Definition honest_payload (k s r ext : N) : nt :=
@@ -221,8 +237,14 @@ Inductive res :=
 | Done (id : N) (idkey : nt) (st : hstate)   (* completed: remoteID, remoteKey, final handshake state *)
 | Fail (cls : N).
 
-(* initiator, stages 1 and 2: reads the next message of its queue as message 2 *)
+(* runHandshake's deferred recover() turns a panic into the error "panic in Noise
+   handshake": a fault at any stage is an error outcome, never a completed session *)
+
+(* initiator, stages 1 and 2: reads the next message of its queue as message 2
+   (its first Read), handles the payload, calls the early-data handler's
+   Received and Send, writes message 3 (its second Write) *)
 Definition init_finish (p : party) (st : hstate) (q : list msg) : res * option msg :=
+  if faulty p (FRead 0) then (Fail E_PANIC, None) else
   match q with
   | [] => (Fail E_IO, None)
   | y :: _ =>
@@ -232,13 +254,16 @@ Definition init_finish (p : party) (st : hstate) (q : list msg) : res * option m
           match handle_payload p pl rs with
           | inr c => (Fail c, None)
           | inl (id, k) =>
-              let '(st3, m3) := write_m3 p st2 in (Done id k st3, Some m3)
+              if faulty p FReceived || faulty p FSend || faulty p (FWrite 1) then (Fail E_PANIC, None)
+              else let '(st3, m3) := write_m3 p st2 in (Done id k st3, Some m3)
           end
       end
   end.
 
-(* responder, stage 2: reads the next message of its queue as message 3 *)
+(* responder, stage 2: reads the next message of its queue as message 3 (its
+   second Read), handles the payload, calls the early-data handler's Received *)
 Definition resp_finish (p : party) (st : hstate) (q : list msg) : res :=
+  if faulty p (FRead 1) then Fail E_PANIC else
   match q with
   | [] => Fail E_IO
   | z :: _ =>
@@ -247,7 +272,7 @@ Definition resp_finish (p : party) (st : hstate) (q : list msg) : res :=
       | Some (st2, rs, pl) =>
           match handle_payload p pl rs with
           | inr c => Fail c
-          | inl (id, k) => Done id k st2
+          | inl (id, k) => if faulty p FReceived then Fail E_PANIC else Done id k st2
           end
       end
   end.
@@ -261,12 +286,16 @@ Definition msgix_eqb (a b : msgix) : bool :=
    with an I/O error unless something is still queued for it. *)
 Definition run_pair (pi pr : party) (net : msgix -> msg -> list msg) : res * res :=
   let '(sI1, m1) := write_m1 pi in
+  if faulty pi (FWrite 0) then (Fail E_PANIC, if faulty pr (FRead 0) then Fail E_PANIC else Fail E_IO) else
+  if faulty pr (FRead 0) then (fst (init_finish pi sI1 []), Fail E_PANIC) else
   match net M1 m1 with
   | [] => (Fail E_IO, Fail E_IO)
   | x :: qR =>
       match read_m1 pr x with
       | None => (Fail E_IO, Fail E_CRYPT)
       | Some sR1 =>
+          (* stage 1 of the responder: the handler's Send, then message 2 (its first Write) *)
+          if faulty pr FSend || faulty pr (FWrite 0) then (fst (init_finish pi sI1 []), Fail E_PANIC) else
           let '(sR2, m2) := write_m2 pr sR1 in
           match init_finish pi sI1 (net M2 m2) with
           | (rI, None) => (rI, resp_finish pr sR2 qR)
@@ -332,7 +361,11 @@ Inductive smsg := SmGood | SmOtherStatic | SmNoPrefix.
 Inductive fsig := FsBy (k : idk) (m : smsg) | FsJunk | FsEmpty.
 Record forge := mkForge { f_init : bool; f_claim : claim; f_sig : fsig }.
 
-Record scenario := mkSc { sc_i : side; sc_r : side; sc_edit : edit; sc_forge : option forge }.
+(* a fault: something panics inside one endpoint's runHandshake *)
+Record fault := mkFault { ft_init : bool; ft_stage : fstage }.
+
+Record scenario := mkSc { sc_i : side; sc_r : side; sc_edit : edit; sc_forge : option forge;
+                          sc_fault : option fault }.
 
 Definition forged_payload (f : forge) (s : N) : nt :=
   let k := match f_claim f with ClKey k => NPub (idn k) | ClJunk => NJunk 910 | ClEmpty => NEmpty end in
@@ -346,7 +379,7 @@ Definition forged_payload (f : forge) (s : N) : nt :=
   NPayload k sg 7.
 
 (* the party of a side in session number [n] (fresh DH scalars per session) *)
-Definition party_of (initiator : bool) (sd : side) (f : option forge) (n : N) : party :=
+Definition party_of (initiator : bool) (sd : side) (f : option forge) (ft : option fstage) (n : N) : party :=
   let e := 10 * n + (if initiator then 1 else 3) in
   let s := 10 * n + (if initiator then 2 else 4) in
   let pl := match f with
@@ -355,7 +388,7 @@ Definition party_of (initiator : bool) (sd : side) (f : option forge) (n : N) : 
             | None => honest_payload (idn (sd_id sd)) s 1 7
             end in
   mkParty e s (prol_term (sd_prologue sd)) (check_peer_id initiator sd)
-          (match sd_expect sd with Some k => Some (idn k) | None => None end) pl.
+          (match sd_expect sd with Some k => Some (idn k) | None => None end) pl ft.
 
 Definition replace_at (c : nat) (m : msg) (x : nt) : msg := firstn c m ++ x :: skipn (S c) m.
 
@@ -372,11 +405,17 @@ Definition net_of (e : edit) (other : msgix -> option msg) (i : msgix) (m : msg)
   end.
 
 (* outcome of session [n] when the edit splices from session [n'] *)
+Definition fault_of (sc : scenario) (initiator : bool) : option fstage :=
+  match sc_fault sc with
+  | Some f => if Bool.eqb (ft_init f) initiator then Some (ft_stage f) else None
+  | None => None
+  end.
+
 Definition run_session (sc : scenario) (n n' : N) : res * res :=
-  let pi := party_of true (sc_i sc) (sc_forge sc) n in
-  let pr := party_of false (sc_r sc) (sc_forge sc) n in
-  let pi' := party_of true (sc_i sc) (sc_forge sc) n' in
-  let pr' := party_of false (sc_r sc) (sc_forge sc) n' in
+  let pi := party_of true (sc_i sc) (sc_forge sc) (fault_of sc true) n in
+  let pr := party_of false (sc_r sc) (sc_forge sc) (fault_of sc false) n in
+  let pi' := party_of true (sc_i sc) (sc_forge sc) None n' in
+  let pr' := party_of false (sc_r sc) (sc_forge sc) None n' in
   run_pair pi pr (net_of (sc_edit sc) (transcript pi' pr')).
 
 Definition run_scenario (sc : scenario) : (res * res) * (res * res) :=
